@@ -20,7 +20,7 @@ from ..timeline import EPS, run_async, run_sync
 
 LEVEL = "exploration"
 RULE = (
-    "TIME machine variants (one delay, two delays, targetless delay + second delay, named computed delay, guarded "
+    "TIME machine variants (one delay, two delays, targetless delay + second delay, named computed delay, compound timed state re-entered through a descendant target, guarded "
     "delay true/false/raise) x environment scripts = all sequences up to the length bound over {LEAVE, BACK, SELF "
     "(re-enter), NOP, STOP, SLOW (an action that keeps the interpreter busy across a deadline), SLOWSELF (the busy action first "
     "queues a re-entering event, so the expiry lands behind it), CHG (named delay)} with non-decreasing times from a grid straddling the "
@@ -41,7 +41,7 @@ ENGINES = ("sync", "async")
 D1, D2 = 0.25, 0.375
 GRID = (0.125, 0.25, 0.3125, 0.375, 0.5)
 HORIZON = 1.5
-VARIANTS = ("one", "two", "stay", "named", "g_true", "g_false", "g_raise")
+VARIANTS = ("one", "two", "stay", "named", "g_true", "g_false", "g_raise", "compound")
 
 
 async def slow_action(interp, ctx, event, action_def):
@@ -56,7 +56,7 @@ async def slowself_action(interp, ctx, event, action_def):
 
 def make_cfg(variant: str) -> Dict[str, Any]:
     after: Dict[str, Any] = {}
-    if variant in ("one", "two", "g_true", "g_false", "g_raise"):
+    if variant in ("one", "two", "g_true", "g_false", "g_raise", "compound"):
         t1: Dict[str, Any] = {"target": "B", "actions": ["tr:a1"]}
         if variant.startswith("g_"):
             t1["guard"] = "g1"
@@ -86,6 +86,11 @@ def make_cfg(variant: str) -> Dict[str, Any]:
         },
         "on": {"CHG": {"actions": [A.assign(lambda a: {"d": 125 if a["context"]["d"] == 250 else 250}), "tr:chg"]}},
     }
+    if variant == "compound":
+        # the timed state is compound and is re-entered through a descendant target (explicit child path)
+        cfg["states"]["A"].update(initial="A1", states={"A1": {}, "A2": {}})
+        for st in ("B", "C", "X"):
+            cfg["states"][st] = {"on": {"BACK": "#m.A.A2"}}
     return cfg
 
 
